@@ -28,7 +28,8 @@ SEMANTIC = ("postcondition not satisfied", "precondition not satisfied", "precon
             "possible arithmetic underflow/overflow", "possible bit shift underflow/overflow",
             "decreases not satisfied", "possible division by zero", "loop invariant not",
             "assertion not satisfied", "unreachable!", "recommendation not met", "failed this postcondition",
-            "could not prove termination", "might not be allowed", "index in bounds", "possible truncation")
+            "could not prove termination", "might not be allowed", "index in bounds", "possible truncation",
+            "unable to prove post-condition of closure", "unable to prove")
 UNDECIDED = ("rlimit exceeded", "resource limit", "not supported", "not yet support", "cannot find", "timed out")
 
 
@@ -429,7 +430,9 @@ def main():
             # a failed precondition has a span in the callee's contract too: the obligation belongs to the function
             # whose query failed (the caller)
             failing = [c for c in real if c in this_run and not this_run[c]["success"]]
-            fq = failing[0] if failing else (real[0] if real else (cands[0] if cands else None))
+            # otherwise the function holding the PRIMARY span (for a failed precondition: the call site, i.e. the caller -
+            # which may be a function outside this property's cone; the callee's contract span must not claim it)
+            fq = failing[0] if failing else (cands[0] if cands else None)
             # clause-level attribution: a contract clause may carry `// [Cxx,Cyy]`; a failure of a clause tagged for other
             # properties only is not a failure of this property
             tags = set()
